@@ -155,6 +155,20 @@ def r1_window(program, rep, B):
               construct="table stores %d" % (n_other + 1), node=B.fn)
     L = ("call", ("global", "len"), (B.TABLE,), ())
     ok = (mk_cmp("Lt", L, B.window), True) in B.facts()
+    if not ok:
+        # a window enforced by counting (e.g. at most window - len(table)
+        # items taken per round with islice) instead of a test before each
+        # insertion is not something this rule follows
+        lp_ = B.store
+        while lp_ is not None and not isinstance(lp_, (ast.For, ast.While)):
+            lp_ = getattr(lp_, "_parent", None)
+        if isinstance(lp_, ast.For) and any(
+                isinstance(x, ast.Call) and call_name(x)[0] in (
+                    "islice", "range", "zip") for x in ast.walk(lp_.iter)):
+            raise AnalysisError("send_scp_burst: the number of commands "
+                                "added per round is bounded by the loop's "
+                                "iterable, not by a test before each "
+                                "insertion; that form is not analysed")
     rep.check(ok, "C06-R1", inst,
               "the only insertion into the outstanding table is dominated by "
               "a still-valid test len(table) < window_size, so len <= "
